@@ -20,6 +20,14 @@ CLAIMED = {
             'exploration: held on the executed call streams (corpus incl. random-model worlds and generated worlds, all create_world argument combinations sampled); output vectors are allocated with exactly the announced size so ASan catches a wrapper that writes more',
             'native World is the reference; Fortran/Python wrappers are not built in this image; only relative output directories are used',
             'DESIGN.md section 4, C16'),
+    'C09': ('runtime monitoring: differential monitor - properties(2D) against properties(3D) at the point mapped per the property statement (mapping re-implemented in the checker), margin rule for discontinuities, on the ASan+UBSan build',
+            'exploration: held on the sampled sections/points (hundreds of worlds with random cross sections in both coordinate systems, thousands of compared calls with random property lists; 2D calls on worlds without cross section must throw)',
+            'tolerances 1e-6 K / 1e-9 after the margin rule (a disagreement is excused only if the tag changes or the value jumps within 1 mm of the point); spherical velocity projection is unspecified and not compared',
+            'DESIGN.md section 4, C09'),
+    'C19': ('runtime monitoring: reference-model monitors - brute-force / exact-arithmetic oracles evaluated next to the real kernels (kd-tree, polygon test incl. exhaustive small lattices, Bezier trench curve, coordinate conversions, great-circle distance), on the ASan+UBSan build',
+            'exploration: held on ~10^6 kernel evaluations per quick run (exhaustive for all simple polygons with 3-5 vertices on 3x3/4x4 lattices, 5x5 in the thorough tier; random otherwise)',
+            'integer-arithmetic polygon oracle; Bezier oracle is a 4000-samples-per-segment brute force over the library\'s own curve evaluation with golden-section refinement; feet within 1 % of the trench ends are outside the quantifier; far-field and two-point-trench solver failures are known findings',
+            'DESIGN.md section 4, C19'),
 }
 
 PENDING_REASON = 'check not built yet (work in progress; see DESIGN.md section 9)'
